@@ -29,13 +29,13 @@ ASSUMPTIONS = [
 ]
 HEALTH = {"src:lit": 20000, "src:equ": 20000, "src:label": 8000, "form:idx": 20000, "form:reglist": 1200, "form:pair": 40}
 EXHAUSTIVE = {
-    "quick": ["all 139 mnemonics x all operand forms x 24 boundary values (in domain) x all spellings x 6 value sources"],
-    "thorough": ["all 139 mnemonics x all operand forms x 24 boundary values (in domain) x all spellings x 6 value sources",
+    "quick": ["all 139 mnemonics x all operand forms x 24 boundary values (in domain) x all spellings x 7 value sources"],
+    "thorough": ["all 139 mnemonics x all operand forms x 24 boundary values (in domain) x all spellings x 7 value sources",
                  "every value 0..65535 and -32768..-1 (in domain) x {dec, minimal hex} x literal source x forms "
                  "imm/mem/extind/idx/pcr for LDA LDX LDY LEAX STA CMPD JMP"],
 }
 
-SOURCES = ["lit", "equ_before", "equ_after", "label_self", "label_before", "label_after"]
+SOURCES = ["lit", "equ_before", "equ_after", "label_self", "label_before", "label_after", "label_org"]
 ORG = 0x1000
 
 
@@ -65,7 +65,7 @@ def value_cases(base, values, spell_all=True):
                 yield dict(base, v=v, sp=tag, src="equ_before")
                 yield dict(base, v=v, sp=tag, src="equ_after")
         if base["form"] != "pcr" and 8 <= v <= 65520:
-            for src in ("label_self", "label_before", "label_after"):
+            for src in ("label_self", "label_before", "label_after", "label_org"):
                 yield dict(base, v=v, sp="dec", src=src)
         elif base["form"] != "pcr" and 0 <= v < 8:
             yield dict(base, v=v, sp="dec", src="label_self")
@@ -188,6 +188,7 @@ def build(case):
     pre, post = [], []
     label = ""
     org = ORG
+    org_label = ""
     vtext = None
     front = back = 0
     if v is not None:
@@ -206,12 +207,15 @@ def build(case):
             elif src == "label_before":
                 org = v
                 front = 1
+            elif src == "label_org":         # the label sits on the ORG line itself (the program's first statement)
+                org = v
+                org_label = A.SYM
             elif src == "label_after":
                 guess = 3 if case["form"] == "imm" and A.imm_width(case["mn"]) == 2 else 3 if case["form"] == "mem" else 4
                 org = max(0, v - guess)
                 back = 1
     lines = list(pre)
-    lines.append(A.line("", "ORG", "$%04X" % org))
+    lines.append(A.line(org_label, "ORG", "$%04X" % org))
     if front:
         lines.append(A.line(A.SYM, "NOP"))
     lines.append(A.line(label, case["mn"], A.operand_text(case, vtext)))
